@@ -39,16 +39,22 @@ def MemRel (xm : List Region) (m : Memory) : Prop :=
     lower.base + lower.bytes.size = frame.base ∧ 64 ≤ lower.bytes.size ∧
     xm.Pairwise disjoint ∧ (∀ r ∈ xm, r.base + r.bytes.size < 2 ^ 64)
 
-/-- machine state `σ` represents eBPF state `s` at call depth 0 (between two arms; `rip` is stated separately):
-    registers through the map, memory as above, x86 r10 = packet base, rsp eight bytes below the eBPF stack with
-    the return address `retAddr` (the prologue's landing pad) in that slot -/
+/-- machine state `σ` represents eBPF state `s` between two arms, at any depth of eBPF-to-eBPF calls (`rip` is stated
+    separately): registers through the map, memory as above, x86 r10 = packet base; every active local call occupies
+    six 8-byte slots of the native stack (r10, rbx, r13, r14, r15 and the return address: `emit_local_call`), so rsp
+    is 8 + 48·depth bytes below the eBPF stack, and the slot it points at holds the return address `retAddr` of the
+    current activation (the prologue's landing pad at depth 0); at least 64 bytes of native stack remain below rsp -/
 structure Rel0 (retAddr : Nat) (σ : St) (s : State) : Prop where
   regs : ∀ k, k < 11 → σ.get (regOf k) = s.reg.getD k 0
   mem : MemRel σ.mem s.mem
   pkt : σ.get 10 = BitVec.ofNat 64 s.mem.mem.base
-  rsp : (σ.get X86.RSP).toNat + 8 = s.mem.stack.base
+  rsp : (σ.get X86.RSP).toNat + 8 + 48 * s.frames.length = s.mem.stack.base
   ret : readMem σ.mem (σ.get X86.RSP).toNat 8 = some (leBytes retAddr 8)
-  frames : s.frames = []
+  room : ∃ lower, σ.mem.getLast? = some lower ∧ lower.base + 64 ≤ (σ.get X86.RSP).toNat
+
+/-- the native stack between the current return slot and the eBPF stack: the frames of the callers -/
+def CallersKept (σ σ' : St) (s : State) : Prop :=
+  ∀ a w, (σ.get X86.RSP).toNat + 8 ≤ a → a + w ≤ s.mem.stack.base → readMem σ'.mem a w = readMem σ.mem a w
 
 /-- the 56 bytes above the eBPF stack (the caller's callee-saved registers pushed by the prologue and its return
     address), which the epilogue pops: no arm may change them -/
@@ -70,6 +76,7 @@ def ArmSim (i : Insn) : Prop :=
     EngineSem.jitExec env s i = .next s' →
     ∃ k σ', stepsN c k σ = some σ' ∧ Rel0 retAddr σ' s' ∧ topBytes σ' s' = topBytes σ s ∧
       σ'.log = σ.log ∧ σ'.misaligned = σ.misaligned ∧ s'.log = s.log ∧
+      s'.frames = s.frames ∧ CallersKept σ σ' s ∧
       ((s'.pc = pc + n ∧ σ'.rip = c.codeBase + b) ∨
        (∃ l, tgt (.pc (s'.pc : Int)) = some l ∧ σ'.rip = c.codeBase + l))
 
